@@ -251,7 +251,14 @@ pub fn norm_state(r: &Runner) -> Value {
                     rp.aspas.iter().map(|a| format!("{a:?}")).collect::<Vec<_>>(),
                     rp.router_keys.iter().map(|k| format!("{k:?}"))
                         .collect::<Vec<_>>(),
-                    rp.issues.clone(),
+                    {
+                        // Key identifiers (fresh after a repeated key
+                        // roll) are not compared.
+                        let mut issues: Vec<String> = rp.issues.iter()
+                            .map(|i| mask_key_ids(i)).collect();
+                        issues.sort();
+                        issues
+                    },
                     shapes,
                 )
             }
@@ -1298,6 +1305,34 @@ pub(crate) fn align_recreated(twin: &Value, faulted: &Value) -> (Value, Value) {
     (twin, faulted)
 }
 
+/// Replaces every run of 40 hex digits (a key identifier) by `KEY`.
+fn mask_key_ids(text: &str) -> String {
+    let bytes = text.as_bytes();
+    let mut out = String::with_capacity(text.len());
+    let mut i = 0;
+    while i < bytes.len() {
+        let mut j = i;
+        while j < bytes.len() && bytes[j].is_ascii_hexdigit() {
+            j += 1;
+        }
+        if j - i == 40 {
+            out.push_str("KEY");
+            i = j;
+        }
+        else if j > i {
+            out.push_str(&text[i..j]);
+            i = j;
+        }
+        else {
+            // Not a hex digit: copy one character.
+            let ch = text[i..].chars().next().unwrap();
+            out.push(ch);
+            i += ch.len_utf8();
+        }
+    }
+    out
+}
+
 /// Whether cut point `k` (1-based) lies after a CA's object set was written
 /// by the pre-save listener and before the command that caused it is
 /// stored.
@@ -1719,6 +1754,8 @@ pub fn profile(name: &str) -> Option<CutProfile> {
             max_cas: 4,
             w_clock: 3,
             max_advance: 3600,
+            // The publication server's operator removes a CA's publisher.
+            w_status: 4,
             ..GenCfg::default()
         },
         torn_writes: false,
